@@ -28,7 +28,7 @@ ASSUMPTIONS = ['positional vs keyword passing of the same argument is not demand
                'values with shared sub-objects and dicts containing py/ keys are outside the tree-shaped domain',
                'child processes import the same /repo working tree']
 
-ATOMS = [0, 1, True, None, 1.0, 'a', '1', '', 8, 'b']
+ATOMS = [0, 1, True, None, 1.0, 'a', '1', '', 8, 'b', u'\xe9\u2713 \u05d0']
 # values whose encoding is long (> 1 KiB) and that differ only at the very end / in the middle
 LONG = [['long', 's', 1], ['long', 's', 2], ['long', 'l', 1], ['long', 'l', 2], ['long', 'm', 1], ['long', 'm', 2]]
 BYTES_ATOM = ['bytes', 'a']
@@ -151,7 +151,7 @@ def universe(tier):
     return out
 
 
-CONFIGS = ['inst', 'static', 'kw', 'two', 'cap-pos', 'cap-name', 'cap-none', 'cap-two', 'cap-static', 'resolver', 'two-aliases', 'fallback']
+CONFIGS = ['inst', 'static', 'kw', 'two', 'cap-pos', 'cap-name', 'cap-none', 'cap-two', 'cap-static', 'resolver', 'two-aliases', 'fallback', 'fallback-resolver']
 
 
 def bounds(tier):
@@ -230,6 +230,10 @@ def make_ops(tr):
         def f_res(self, *a, **k):
             return KeyOp.next()
 
+        @tr.intercept_input('kf_{id}', alias_params_resolver=lambda self, *a, **k: {'id': self.ident}, fallback_aliases=['kf_never', 'kf_{id}'])
+        def f_fbres(self, *a, **k):
+            return KeyOp.next()
+
     KeyOp.counter = [0]
 
     def nxt():
@@ -298,6 +302,14 @@ def plan_for(cfg, U, rev=False, variant=0):
         for t in texts:
             plan.append((fn, [t], {}, 'A'))
             plan.append((fn, [[t, 'knew']], {'x': t}, 'A'))
+    if cfg == 'fallback-resolver':
+        # a resolved alias together with a declared fallback LIST; the replayed code makes calls whose resolved alias was never
+        # recorded, between calls whose alias was: each is answered by its own identity only
+        idents = ('A', 'B') if FALLBACK_PHASE[0] == 'record' and variant == 0 and not rev else ('A', 'C', 'B', 'D', 'A', 'never', '{id}')
+        for ident in idents:
+            plan.append(('f_fbres', [], {}, ident))
+            for u in small[:6]:
+                plan.append(('f_fbres', [build(u, rev)], {}, ident))
     if cfg == 'cap-two':
         for a, b in itertools.product(small[:16], repeat=2):
             plan.append(('f_cap2', [build(a, rev), build(b, rev), ['excluded', variant], build(a, rev)], {}, 'A'))
@@ -322,7 +334,7 @@ def identity(cfg, call):
         return (fn, canon(kw.get('x', 'ABSENT')) if 'x' in kw else 'ABSENT')
     if fn == 'f_cap0':
         return (fn,)
-    return (fn, ident if fn == 'f_res' else None, canon(list(args)), canon(kw))
+    return (fn, ident if fn in ('f_res', 'f_fbres') else None, canon(list(args)), canon(kw))
 
 
 def expected_for(cfg, plan_rec, plan_rep):
@@ -408,6 +420,7 @@ def run_case(case):
         rid, recorded, plan_rec = record_into(d, cfg, tier)
         viols = []
         nbad = 0
+        cross = 0
         n = len(recorded)
         labels = []
         for rev, variant, tag, label in ((False, 0, 'same', 'same process, same order'), (True, 0, 'other', 'same process, reversed insertion order, other instance'),
@@ -432,13 +445,51 @@ def run_case(case):
             v, b = judge(cfg, tier, recorded, replayed, 'child process PYTHONHASHSEED=%d' % hs, plan_rec, plan_for(cfg, universe(tier), rev=True))
             viols += v
             nbad += b
+        # a process that loaded only the recorder and the in-memory cassette (none of the other cassette modules): same keys
+        if cfg in ('inst', 'static', 'kw', 'cap-pos', 'resolver', 'cap-two'):
+            from playback.tape_cassettes.file_based.file_based_tape_cassette import FileBasedTapeCassette
+            here = sorted(FileBasedTapeCassette(d).get_recording(rid).get_all_keys())
+            out = subprocess.run([sys.executable, '-c', 'from mc.checks import c06; c06.child_keys_main()', cfg, tier], capture_output=True, text=True,
+                                 env=dict(os.environ, PYTHONHASHSEED='0'), cwd=os.path.dirname(os.path.dirname(os.path.dirname(os.path.abspath(__file__)))))
+            if out.returncode != 0:
+                from mc.core import HarnessError
+                raise HarnessError('child key dump failed: %s' % out.stderr[-800:])
+            res = json.loads(out.stdout.strip().splitlines()[-1])
+            if os.environ.get('PYTHONHASHSEED') == '0' and res['minimal_imports']:
+                cross = 1
+                there = sorted(res['keys'])
+                if there != here:
+                    diff = [k for k in there if k not in set(here)][:2] + [k for k in here if k not in set(there)][:2]
+                    viols.append(viol('unstable-key:other-modules-loaded:%s' % cfg, 'the same calls get other keys in a process that loaded only the recorder and the in-memory cassette than in one that '
+                                      'also loaded the file cassette (configuration %s)' % cfg, 'same key set', [x[:160] for x in diff]))
+                    nbad += 1
         uniq = {}
         for v in viols:
             uniq.setdefault(v['sig'], v)
         return dict(viol=list(uniq.values()), obs=repr((cfg, n, nbad)), nontrivial=n >= 2, evals=n * (len(labels) + 4), transitions=n * (len(labels) + 4),
-                    extra={'calls_recorded': n})
+                    extra={'calls_recorded': n, 'key_sets_compared_with_minimal_import_process': cross})
     finally:
         shutil.rmtree(d, ignore_errors=True)
+
+
+def child_keys_main():
+    # child process that imports as little of the library as possible: records the plan in memory and prints the keys
+    from mc import core
+    core.bind_repo()
+    import logging
+    logging.disable(logging.CRITICAL)
+    cfg, tier = sys.argv[1:3]
+    from playback.tape_recorder import TapeRecorder
+    from playback.tape_cassettes.in_memory.in_memory_tape_cassette import InMemoryTapeCassette
+    cas = InMemoryTapeCassette()
+    tr = TapeRecorder(cas)
+    tr.enable_recording()
+    K = make_ops(tr)
+    FALLBACK_PHASE[0] = 'record'
+    K('rec').execute(plan_for(cfg, universe(tier)))
+    rid = list(cas.iter_recording_ids('KeyOp'))[0]
+    minimal = not any(m.startswith('playback.tape_cassettes.') and 'in_memory' not in m and sys.modules[m] is not None for m in list(sys.modules))
+    print(json.dumps({'keys': sorted(cas.get_recording(rid).get_all_keys()), 'minimal_imports': minimal}))
 
 
 def child_main():
